@@ -954,19 +954,20 @@ func runC18(c *Ctx) {
 	// ---- R1
 	h := a.IntTable["REGISTER"]
 	r.Anchor("R1", "REGISTER handler", h != nil)
+	hRaw := a.IntTableRaw["REGISTER"]
 	r.Rule("R12", "registration and PONGs are written whatever the configured Timeout: no deadline stays armed on the socket (shared with C07.R8) - a per-line write deadline of now + Config.Timeout has already passed when Timeout is 0, the first write fails and nothing is ever sent")
 	c.noArmedDeadlineRule("R12")
 	r.Rule("R13", "the registration is sent once per connect: the REGISTER handler runs only because the REGISTER event was dispatched (once per successful connect, C06.R1) - no function of the library calls it directly or takes its value outside the handler table (a numeric handler that 're-sends the registration' repeats CAP LS / PASS / NICK / USER on the same connection)")
-	if h != nil {
+	if h != nil && hRaw != nil {
 		nCall := 0
-		for _, cs := range c.Callers(h) {
+		for _, cs := range c.Callers(hRaw) {
 			nCall++
 			r.Add("R13", "register-called:"+c.FuncKey(cs.Parent()), c.InstrPos(cs), c.FuncKey(cs.Parent()), "the REGISTER handler is reached only through the handler table", false, "called directly from "+c.FuncKey(cs.Parent()))
 		}
 		r.Add("R13", "register-only-dispatched", c.Pos(h.Pos()), c.FuncKey(h), "the REGISTER handler has no direct callers", nCall == 0, fmt.Sprintf("%d direct calls", nCall))
 		inTables := 0
-		for _, f := range a.IntTable {
-			if f == h {
+		for _, f := range a.IntTableRaw {
+			if f == hRaw {
 				inTables++
 			}
 		}
